@@ -66,6 +66,12 @@ def run(ctx, prefix=PREFIX):
         t, m = section.random_histories(ctx, rng, 120 if ctx.tier != "thorough" else 1500, 34, ["A", "A", "A", "", "b"], kind=kind)
         all_traces += t
         all_meta += m
+    # names are opaque strings: format characters, braces, blanks inside, non-ASCII letters, '#', '~', digits only
+    odd = ["P%", "P%", "S%%d", "{0}", "{x}", "50% x", "x y", "\u00e9", "\u00c9", "#1", "~T", "7", "%s"]
+    for kind in ("header", "curve"):
+        t, m = section.random_histories(ctx, rng, 150 if ctx.tier != "thorough" else 3000, 7, odd, kind=kind)
+        all_traces += t
+        all_meta += m
     fails, _ = ctx.validate("Trace_Section", section.doc_for(all_traces))
     section.judge(ctx, all_traces, all_meta, fails, prefix)
     ctx.require_ops("Trace_Section", ["init", "append", "insert", "delidx", "delkey", "setitem", "setvalue", "get", "probe", "roundtrip"])
